@@ -22,12 +22,18 @@ open Gowarc.Discipline
 def table : Table :=
   { pkgVarWrites := Gowarc.Gen.pkgVarWrites, writerFieldWrites := Gowarc.Gen.writerFieldWrites, writerFieldReads := Gowarc.Gen.writerFieldReads, lockHolders := Gowarc.Gen.lockHolders,
     innerCalls := Gowarc.Gen.innerCalls, outerCalls := Gowarc.Gen.outerCalls, unsafeExternalCalls := Gowarc.Gen.unsafeExternalCalls,
-    generatorFieldWrites := Gowarc.Gen.generatorFieldWrites, writerStructWrites := Gowarc.Gen.writerStructWrites, poolPuts := Gowarc.Gen.poolPuts }
+    generatorFieldWrites := Gowarc.Gen.generatorFieldWrites, writerStructWrites := Gowarc.Gen.writerStructWrites, poolPuts := Gowarc.Gen.poolPuts,
+    pkgObjects := Gowarc.Gen.pkgObjects }
 
 /-- **the extracted table satisfies the discipline** -/
 theorem C11_table : RaceFree table = true := by decide
 
 theorem C11_closed : Closed table (unlocked table) = true := by decide
+
+/-- **no package-level variable holds a mutable object**: every object created at package level is made by one of the
+    allowed makers (error values, version descriptors, read-only tables, sync.Pool) — in particular no buffer, reader or
+    cache is shared behind the API by all users of the package (seed C11-i: a sentinel disk buffer) -/
+theorem C11_pkg_objects : table.pkgObjects.all (fun o => allowedMakers.contains o.2.2) = true := by decide
 
 /-- every method that assigns a field of the per-file writer runs under writeLock on every call path from outside -/
 theorem C11_fields_locked (field m f : String) (path : List String) (hw : (field, m) ∈ table.writerFieldWrites)
